@@ -21,6 +21,7 @@ import dataclasses
 import functools as ft
 import inspect
 import itertools as it
+import keyword
 import sys
 import warnings
 import weakref
@@ -600,6 +601,12 @@ def _make_fn_with_signature(
     else:
         outstr = "pass"
 
+    # The name need not be something that can follow `def`, e.g. `<lambda>`. In that
+    # case define the function under a placeholder, and give it its proper name
+    # afterwards.
+    fn_name = name
+    if not name.isidentifier() or keyword.iskeyword(name):
+        name = _gensym(param_names, prefix="fn")
     scope = {name: None}
     name_to_annotation = {}
     name_to_default = {}
@@ -676,6 +683,7 @@ def _make_fn_with_signature(
     exec(fnstr, scope)
     fn = scope[name]
     del scope[name]  # Avoids introducing a reference cycle.
+    fn.__name__ = fn_name
     fn.__module__ = module
     fn.__qualname__ = qualname
     assert fn is not None
